@@ -30,7 +30,17 @@ MODULES = {
 
 
 def scratch_root():
-    base = os.environ.get('VERIF_SCRATCH', '/var/tmp')
+    base = os.environ.get('VERIF_SCRATCH')
+    if not base:
+        # the scratch copy, its Kani build and the CNF files CBMC writes for kissat (500 MB per harness) are I/O bound on disk: a
+        # RAM-backed /dev/shm with room to spare cuts the wall time by a fifth; anything else falls back to /var/tmp
+        base = '/var/tmp'
+        try:
+            st = os.statvfs('/dev/shm')
+            if st.f_bavail * st.f_frsize >= 24 * (1 << 30) and os.access('/dev/shm', os.W_OK):
+                base = '/dev/shm'
+        except OSError:
+            pass
     return os.path.join(base, 'rssl-verif.%d' % os.getpid())
 
 
